@@ -44,6 +44,13 @@ def run(ctx: Ctx):
     r16_4(ctx)
     r16_2(ctx)
     r16_3(ctx)
+    r16_5(ctx)
+
+
+def r16_5(ctx: Ctx, rule="R16.5"):
+    from ..util import persistent_state
+    fs = [ctx.func(q) for q in ("ItpFile.__init__", "ItpFile.write", "ItpSection.__init__", "ItpLine.__init__", "ItpLine.parse_itp_line")]
+    persistent_state(ctx, rule, fs, "reading / writing a topology file")
 
 
 # ---------------------------------------------------------------------------
